@@ -14,18 +14,20 @@ from harness.lib import producer_gen as G
 
 COMPONENTS = ["producer"]
 MONITORS = {
-    "C01": ["c01-once", "c01-acked", "c01-acks0", "c01-payloads", "c01-resolved"],
-    "C09": ["c09-order", "c09-onebatch", "c09-retry", "c09-attempts", "c09-geometric"],
+    "C01": ["c01-once", "c01-acked", "c01-acks0", "c01-emptyanswer", "c01-payloads", "c01-resolved"],
+    "C09": ["c09-order", "c09-onebatch", "c09-retry", "c09-reported", "c09-attempts", "c09-geometric"],
     "C19": ["c19-accounting", "c19-dispatch", "c19-cancel", "c19-detach", "c19-stop", "c19-schedule"],
 }
 WHAT = {
     "c01-once": "a send Deferred fired more than once",
-    "c01-acked": "a send Deferred succeeded without an acknowledgement for a request carrying its messages (or with an exception as value)",
+    "c01-acked": "a send Deferred succeeded without an acknowledgement for a request carrying its messages (or with an exception as value; or, acks=0, with None although the answer in hand lists its payload as failed / is not the empty answer and attempts remain)",
+    "c01-emptyanswer": "the client's empty answer to the request in flight did not fire every outstanding send of that request at once (acks=0: success with None; otherwise NoResponseError)",
+    "c09-reported": "an answer of the client acknowledged a payload (error 0) but a send riding on it was not fired `ok` with that response in the same step; or the answer ended the batch (attempts used up / not a Kafka error) and a send on a failed payload was not failed with that error",
     "c01-acks0": "with req_acks=0 a send failed with NoResponseError although the request was handed over",
-    "c01-payloads": "a produce payload is not made of whole, distinct sends of its topic",
+    "c01-payloads": "a produce payload is not made of whole, distinct sends of its topic, or its messages (key, size, order) are not exactly those sends' messages",
     "c01-resolved": "a batch resolved while one of its sends had not fired",
     "c09-order": "per-partition submission order violated in a produce request",
-    "c09-onebatch": "a new batch was sent while an earlier one was unresolved (or a retry carried foreign sends)",
+    "c09-onebatch": "a first-attempt produce request was made while the previous produce request was unanswered, or while an earlier batch was unresolved (or a retry carried foreign sends)",
     "c09-retry": "a retry did not send exactly the payloads reported failed (or re-sent an acknowledged payload)",
     "c09-attempts": "more produce attempts for a batch than max_req_attempts",
     "c09-geometric": "retry delay is not init*factor^k / was not reset when the batch resolved",
@@ -33,7 +35,7 @@ WHAT = {
     "c19-dispatch": "dispatch did not happen exactly when the thresholds/tick and the in-flight state demand",
     "c19-cancel": "cancel of a queued send did not remove it / cancel of a dispatched send did more than detach",
     "c19-detach": "after a send was cancelled late (after dispatch) a batch resolved while another of its sends had not fired: the cancel did more than detach its caller",
-    "c19-stop": "stop() left a send outstanding, failed it with a non-cancellation error, or something was transmitted in/after stop()",
+    "c19-stop": "stop() left a send outstanding, failed it with a non-cancellation error, or something was transmitted in/after stop(); or after stop() something was queued/outstanding, or a send_messages was not refused at once with CancelledError",
     "reentrant-tx-after-stop": "a produce or metadata request was issued after a stop() made by a callback of a send Deferred had returned",
     "success-never-sent": "a send Deferred succeeded although no produce request ever carried the send (ground truth of the scripted harness; with re-entrant callbacks the flat truthfulness monitor is not evaluated)",
     "c19-schedule": "the batch_every_t looping call did not tick on its schedule (start+k*T, late calls collapsed, never while not due / stopped), or something else ran while a tick was overdue",
